@@ -791,10 +791,17 @@ impl Chain {
         let parent = self.recs.last().map(|r| r.hash).unwrap_or([0; 32]);
         let b = build_block(&self.node, &self.keys, BlockSpec { parent, ts, txs, gt, creator: 0 })?;
         let rec = rec_from_block(&b, true, "chain");
+        let n_atr = b.transactions.iter().filter(|t| t.transaction_type == TransactionType::ATR).count();
+        let payout_atr = b.total_payout_atr;
         let res = self.node.add_block(b);
         match outcome_of(&res) {
             AddOutcome::Added { longest: true } => {}
-            other => return Err(format!("own block id {} refused by its producer: {:?}", rec.id, other)),
+            other => {
+                // classification for C07: producer and validator disagree
+                let _ = payout_atr;
+                let class = if atr_multiplier(&self.node.bc, self.params.genesis_period) > 1 { "atr-treasury-multiplier-above-1" } else if n_atr > 0 { "atr-multiplier-1" } else { "no-atr" };
+                return Err(format!("REFUSED[{}] own block id {} refused by its producer: {:?} (rebroadcasts {}, total_payout_atr {})", class, rec.id, other, n_atr, payout_atr));
+            }
         }
         self.ledger.apply(&rec);
         self.recs.push(rec);
@@ -915,4 +922,20 @@ pub fn ledger_supply(l: &RefLedger, tip_id: u64, genesis_period: u64) -> u128 {
         .filter(|s| s.stype != SlipType::Bound && s.block_id >= tip_id.saturating_sub(genesis_period))
         .map(|s| s.amount as u128)
         .sum()
+}
+
+/// the rebroadcast payout multiplier the *next* block will use (1 + treasury / (gp * avg rebroadcast)),
+/// read from the tip header; > 1 is the situation in which producer and validator are known to disagree
+pub fn atr_multiplier(bc: &Blockchain, genesis_period: u64) -> u64 {
+    match bc.get_latest_block() {
+        Some(t) => {
+            let staked = (genesis_period as u128) * (t.avg_nolan_rebroadcast_per_block as u128);
+            if staked == 0 {
+                1
+            } else {
+                1 + (t.treasury as u128 / staked) as u64
+            }
+        }
+        None => 1,
+    }
 }
